@@ -243,7 +243,10 @@ def alphabet(cfg, reduced=False, quick=False):
 def configs(tier):
     out = []
     for cls in ('LRI', 'LRU'):
-        for ms, pre in ((2, (('a', 0), ('b', 1))), (1, (('a', 0),))):
+        starts = [(2, (('a', 0), ('b', 1))), (1, (('a', 0),))]
+        if tier != 'quick':
+            starts += [(2, (('a', 0),)), (3, (('a', 0), ('b', 1)))]      # caches that are not full when the threads start
+        for ms, pre in starts:
             for om in (False, True):
                 out.append({'class': cls, 'max_size': ms, 'on_miss': om, 'prefill': pre})
     return out
@@ -268,7 +271,7 @@ def programs(tier):
                     b = max(1, b - 1)  # copy() re-inserts every item: ~4x the scheduling points of any other operation
                 out.append((cfg, ((x,), (y,)), b))
         R = alphabet(cfg, reduced=True)
-        if cfg['max_size'] == 2:
+        if cfg['max_size'] == 2 and len(cfg['prefill']) == 2:
             seqs = [(x, y) for x in R[:5] for y in R[:5] if x != y] if not quick else \
                    [(R[0], R[1]), (R[1], R[0]), (R[2], R[0]), (R[3], R[1]), (R[4], R[2])]
             b22 = 1 if quick else 2
